@@ -20,6 +20,7 @@ the limit (explicit and background dials are never limited); the whole decision 
 connect timeout.
 The count compared with the limit is current: at handler exit the peer leaves the map before the request tasks are shut down (C09.3 re-evaluated).
 The affinity looked up is the one last configured: KnownPeers::insert replaces the whole entry, remove deletes it, nothing else writes the map or edits a PeerInfo in place.
+The limit field is (de)serialised by the plain derived impls (serde attributes read from the source: no hook, no custom default).
 """
 TRUSTED = ["KnownPeers is a HashMap<PeerId, PeerInfo> behind a RwLock", "quinn closes a connection whose last handle is dropped"]
 NOT_DECIDED = ["truly simultaneous arrivals (excluded by the property)", "slot accounting over histories beyond `len()` reading the live map",
@@ -206,7 +207,7 @@ def run(cx):
         ob.require(len(w) == 1 and not bad, "stale-count/removed-first-at-handler-exit", "a finished connection can stay counted while its request tasks are being shut down: " + "; ".join(str(v.msg) for v in bad)[:300], "anemo::network::request_handler::InboundRequestHandler::start")
 
     with cx.ob("C10.6", "R-WRITERS", "one layer out: the configured connection limit is never rewritten after the Config was built") as ob:
-        check_config_immutable(ob, prog, ["max_concurrent_connections"])
+        check_config_immutable(ob, prog, ["max_concurrent_connections"], repo=cx.repo)
 
     with cx.ob("C10.7", "R-WRITERS", "one layer out: the affinity admission looks up is the one last configured - KnownPeers::insert replaces the whole entry with the given PeerInfo, remove deletes it, and nothing else writes the map") as ob:
         KP = f"{CM}::KnownPeers"
